@@ -1,8 +1,9 @@
 """C10 — a sub-query renders the same wherever it is embedded.
 
-proof:   Props/C10.v (flags_irrelevant: for every SELECT statement of the model and every context, the rendering is the stand-alone rendering under
-         the context with the three position flags erased, wrapped in parentheses iff the position asks for them and followed by the alias iff the
-         position defines one; the clause contexts are derived from the erased context)
+proof:   Props/C10.v over Proofs/QueryEq.v (C10_embedded_is_standalone: for EVERY embeddable statement of the model, every context handed down by a
+         position and every parameterizer state, the rendering is the stand-alone rendering under the same dialect conventions with the four position
+         flags off, wrapped in parentheses iff the position asks for them and followed by the alias iff the position defines one;
+         C10_position_flags_do_not_reach_the_clauses; C10_setop_embedded_is_standalone: the same for set operations)
 tie:     correspondence of Model.Render on inner, marker and outer statements (all positions, classes, both modes)
 P_check: relational, on implementation outputs only: outer(inner) == outer(marker) with the marker's stand-alone text replaced by the inner
          query's stand-alone text (placeholders renumbered by the values that precede the position)
@@ -23,7 +24,7 @@ from pypika_tortoise.terms import Parameterizer
 from pypika_tortoise.dialects import MSSQLQuery, MySQLQuery, OracleQuery, PostgreSQLQuery, SQLLiteQuery
 
 LEVEL = "proof"
-THEOREMS = ["C10_nonvacuous"]
+THEOREMS = ["C10_embedded_is_standalone", "C10_position_flags_do_not_reach_the_clauses", "C10_setop_embedded_is_standalone", "C10_nonvacuous"]
 HEADER = "From PT Require Import Base.Str Base.Codes.\nOpen Scope N_scope.\n"
 
 
